@@ -65,9 +65,9 @@ func TestNarrowing(t *testing.T) {
 				c.Fields = append(c.Fields, genField(t, s.Provs, i < nf-1 && rapid.IntRange(0, 3).Draw(t, "emptyopt") == 0))
 			}
 			// a configuration point next to the component points (other property group of the same holder)
-			if rapid.Bool().Draw(t, "cfgfield") {
+			for nd := rapid.SampledFrom([]int{0, 1, 1, 2}).Draw(t, "ndecoys"); nd > 0; nd-- {
 				pos := rapid.IntRange(0, len(c.Fields)).Draw(t, "cfgpos")
-				f := pop.FieldSpec{Type: "string", Tag: `value:"lit"`}
+				f := pop.DrawDecoyField(t)
 				c.Fields = append(c.Fields[:pos], append([]pop.FieldSpec{f}, c.Fields[pos:]...)...)
 			}
 			s.Cons = append(s.Cons, c)
@@ -97,6 +97,11 @@ func TestNarrowing(t *testing.T) {
 		if in.Out.Err == nil {
 			if err := graph.CheckWiringOpt(g, graph.WiringOpts{Complete: true, Rank: true}); err != nil {
 				t.Fatalf("C08: %v\nscenario: %s\nreg %v ordmode %d seed %x", err, desc, s.RegPerm, s.OrdMode, s.OrdSeed)
+			}
+			for k, c := range s.Cons {
+				if err := pop.CheckDecoys(in.Comps[s.ConsumerIndex(k)], c); err != nil {
+					t.Fatalf("C08: %v\nscenario: %s", err, desc)
+				}
 			}
 			for _, c := range g.Pop {
 				if c.ID < 0 {
